@@ -7,7 +7,9 @@
 (* propagation, HandleConnectionClosed and checkAutoReannounce.  The SHIP     *)
 (* handshake of a connection is summarised by one Complete step (both sides  *)
 (* trust each other; the handshake itself is ShipSme.tla).  Environment:     *)
-(* registration and visibility in any order, DisconnectSKI, transport cuts.  *)
+(* registration and visibility in any order, DisconnectSKI, transport cuts,  *)
+(* and (Rich) unregistering, losing sight of the peer, a hub restart and a   *)
+(* final Shutdown.                                                           *)
 (* FixStale / AtomicReg describe repairs; FALSE = the tree as it is.          *)
 (***************************************************************************)
 EXTENDS Naturals, Sequences, FiniteSets, TLC, Json
@@ -16,14 +18,19 @@ CONSTANTS MaxC,          \* connection ids 1..MaxC
           FixStale,      \* TRUE: a delayed attempt that finds its counter reset re-checks mDNS (one more report), and the
                          \*       attempt-running flag is held until the attempt is over (the repair)
           AtomicReg,     \* TRUE: keep-check .. register is one critical section (what a repair would do)
+          FixIntent,     \* TRUE: an outbound connection is registered only if the peer is still paired / queued at that moment,
+                         \*       and Unregister reads the registry under the same lock (repair 2 of C10)
+          FixShut,       \* TRUE: registration checks the shutdown flag and Shutdown collects the connections under the
+                         \*       registration lock (repair 3 of C10); FALSE: a connection being set up survives Shutdown
+          Rich,          \* TRUE: Unregister / Disappear / Restart / Shutdown are environment actions as well
           EmitMode, SimDepth
 Hubs == {"A", "B"}       \* SKI order: "A" > "B"
 Other(h) == IF h = "A" THEN "B" ELSE "A"
 Higher(h) == h = "A"
 Conns == 1..MaxC
 
-VARIABLES trusted, visible, reg, cnt, running, dials, reports, conn, nextId, disturb, script
-svars == <<trusted, visible, reg, cnt, running, dials, reports, conn, nextId, disturb>>
+VARIABLES trusted, visible, reg, cnt, running, dials, reports, conn, nextId, disturb, shut, intent, script
+svars == <<trusted, visible, reg, cnt, running, dials, reports, conn, nextId, disturb, shut, intent>>
 vars == <<svars, script>>
 
 \* conn[c] = [cl, sv, cpc, spc, alive, done]
@@ -33,28 +40,28 @@ Init == /\ trusted = [h \in Hubs |-> FALSE] /\ visible = [h \in Hubs |-> FALSE]
         /\ reg = [h \in Hubs |-> 0] /\ cnt = [h \in Hubs |-> 3]      \* 3 = no counter
         /\ running = [h \in Hubs |-> FALSE] /\ dials = [h \in Hubs |-> {}]
         /\ reports = [h \in Hubs |-> 0]
-        /\ conn = [c \in Conns |-> NoConn] /\ nextId = 1 /\ disturb = 0 /\ script = <<>>
+        /\ conn = [c \in Conns |-> NoConn] /\ nextId = 1 /\ disturb = 0 /\ shut = [h \in Hubs |-> FALSE] /\ intent = [h \in Hubs |-> FALSE] /\ script = <<>>
 
 LiveConns(h) == Cardinality({c \in Conns : reg[h] = c})
 \* checkAutoReannounce: #trusted > #connections -> RequestMdnsEntries -> one more report goroutine
 Reannounce(h, regNew) == IF trusted[h] /\ regNew = 0 /\ visible[h] THEN 1 ELSE 0
 
 \* ------------------------------------------------------------------ user / environment
-Register(h) == /\ ~trusted[h] /\ trusted' = [trusted EXCEPT ![h] = TRUE]
+Register(h) == /\ ~intent[h] /\ ~shut[h] /\ trusted' = [trusted EXCEPT ![h] = TRUE] /\ intent' = [intent EXCEPT ![h] = TRUE]
                /\ reports' = [reports EXCEPT ![h] = IF visible[h] /\ reg[h] = 0 THEN @ + 1 ELSE @]
-               /\ UNCHANGED <<visible, reg, cnt, running, dials, conn, nextId, disturb>>
-Appear(h) == /\ ~visible[h] /\ visible' = [visible EXCEPT ![h] = TRUE]
+               /\ UNCHANGED <<visible, reg, cnt, running, dials, conn, nextId, disturb, shut>>
+Appear(h) == /\ ~visible[h] /\ ~shut[h] /\ ~shut[Other(h)] /\ visible' = [visible EXCEPT ![h] = TRUE]
              /\ reports' = [reports EXCEPT ![h] = @ + 1]
-             /\ UNCHANGED <<trusted, reg, cnt, running, dials, conn, nextId, disturb>>
+             /\ UNCHANGED <<trusted, reg, cnt, running, dials, conn, nextId, disturb, shut, intent>>
 
 \* ------------------------------------------------------------------ mDNS report -> coordinate
 Report(h) == /\ reports[h] > 0 /\ reports' = [reports EXCEPT ![h] = @ - 1]
-             /\ IF reg[h] # 0 \/ ~trusted[h] \/ running[h]
+             /\ IF reg[h] # 0 \/ ~trusted[h] \/ running[h] \/ ~visible[h] \/ shut[h]
                 THEN UNCHANGED <<cnt, running, dials>>
                 ELSE LET k == IF cnt[h] = 3 THEN 0 ELSE IF cnt[h] >= 2 THEN 2 ELSE cnt[h] + 1
                      IN  /\ cnt' = [cnt EXCEPT ![h] = k] /\ running' = [running EXCEPT ![h] = TRUE]
                          /\ dials' = [dials EXCEPT ![h] = @ \cup {k}]
-             /\ UNCHANGED <<trusted, visible, reg, conn, nextId, disturb>>
+             /\ UNCHANGED <<trusted, visible, reg, conn, nextId, disturb, shut, intent>>
 
 \* prepareConnectionInitation after the delay, up to and including the dial
 Prepare(h, k) ==
@@ -63,13 +70,13 @@ Prepare(h, k) ==
        THEN /\ running' = [running EXCEPT ![h] = FALSE]
             /\ reports' = [reports EXCEPT ![h] = @ + (IF FixStale THEN Reannounce(h, reg[h]) ELSE 0)]
             /\ UNCHANGED <<conn, nextId>>
-       ELSE IF ~trusted[h] \/ reg[h] # 0 \/ nextId > MaxC
+       ELSE IF ~trusted[h] \/ reg[h] # 0 \/ nextId > MaxC \/ shut[h] \/ shut[Other(h)]
        THEN running' = [running EXCEPT ![h] = FALSE] /\ UNCHANGED <<conn, nextId, reports>>
        ELSE /\ conn' = [conn EXCEPT ![nextId] = [cl |-> h, sv |-> Other(h), cpc |-> "dialed", spc |-> "accepted",
                                                   alive |-> TRUE, done |-> FALSE]]
             /\ nextId' = nextId + 1 /\ UNCHANGED reports
             /\ running' = IF FixStale THEN running ELSE [running EXCEPT ![h] = FALSE]     \* held until the attempt is over
-    /\ UNCHANGED <<trusted, visible, reg, cnt, disturb>>
+    /\ UNCHANGED <<trusted, visible, reg, cnt, disturb, shut, intent>>
 
 \* ------------------------------------------------------------------ closing one side of a connection
 \* HandleConnectionClosed(h, c): registry removal only for the registered object; counter reset if completed
@@ -103,7 +110,7 @@ OKeep(c) ==
                      /\ reports' = [reports EXCEPT ![h] = @ + Reannounce(h, eff.reg)]
             ELSE /\ conn' = [conn EXCEPT ![c].cpc = "closed", ![c].alive = FALSE]
                  /\ UNCHANGED <<reg, cnt, reports>>
-    /\ UNCHANGED <<trusted, visible, running, dials, nextId, disturb>>
+    /\ UNCHANGED <<trusted, visible, running, dials, nextId, disturb, shut, intent>>
 
 \* Run(): if the transport is already dead the connection ends in error right here
 \* (HandleConnectionClosed for an unregistered object), and is registered afterwards all the same
@@ -113,13 +120,15 @@ ORunReg(c) ==
        /\ conn' = [conn EXCEPT ![c].cpc = IF conn[c].alive THEN "reg" ELSE "regDead"]
        /\ reg' = [reg EXCEPT ![h] = c]
        /\ reports' = [reports EXCEPT ![h] = @ + (IF conn[c].alive THEN 0 ELSE Reannounce(h, reg[h]))]
-    /\ UNCHANGED <<trusted, visible, cnt, running, dials, nextId, disturb>>
+    /\ UNCHANGED <<trusted, visible, cnt, running, dials, nextId, disturb, shut, intent>>
 
 \* atomic variant: keep-check, Run and register in one step
 OAtomic(c) ==
     /\ conn[c].cpc = "dialed"
     /\ LET h == conn[c].cl IN
-       IF reg[h] # 0 /\ ~KeepDecision(h, FALSE)
+       IF (FixIntent /\ ~trusted[h]) \/ (FixShut /\ shut[h])     \* no longer paired / shut down: closed instead of registered
+       THEN /\ conn' = [conn EXCEPT ![c].cpc = "closed", ![c].alive = FALSE] /\ UNCHANGED <<reg, cnt, reports>>
+       ELSE IF reg[h] # 0 /\ ~KeepDecision(h, FALSE)
        THEN /\ conn' = [conn EXCEPT ![c].cpc = "closed", ![c].alive = FALSE] /\ UNCHANGED <<reg, cnt, reports>>
        ELSE IF ~conn[c].alive
        THEN /\ conn' = [conn EXCEPT ![c].cpc = "closed"] /\ UNCHANGED <<reg, cnt>>
@@ -129,7 +138,7 @@ OAtomic(c) ==
             IN  /\ conn' = [CloseExisting(h, conn) EXCEPT ![c].cpc = "reg"]
                 /\ reg' = [reg EXCEPT ![h] = c] /\ cnt' = [cnt EXCEPT ![h] = eff.cnt] /\ UNCHANGED reports
     /\ running' = [running EXCEPT ![conn[c].cl] = FALSE]          \* the attempt of the dialling hub is over
-    /\ UNCHANGED <<trusted, visible, dials, nextId, disturb>>
+    /\ UNCHANGED <<trusted, visible, dials, nextId, disturb, shut, intent>>
 
 \* ------------------------------------------------------------------ inbound side
 SKeep(c) ==
@@ -145,7 +154,7 @@ SKeep(c) ==
                      /\ reports' = [reports EXCEPT ![h] = @ + Reannounce(h, eff.reg)]
             ELSE /\ conn' = [conn EXCEPT ![c].spc = "closed", ![c].alive = FALSE]
                  /\ UNCHANGED <<reg, cnt, reports>>
-    /\ UNCHANGED <<trusted, visible, running, dials, nextId, disturb>>
+    /\ UNCHANGED <<trusted, visible, running, dials, nextId, disturb, shut, intent>>
 
 SRunReg(c) ==
     /\ conn[c].spc = "kept"
@@ -153,12 +162,12 @@ SRunReg(c) ==
        /\ conn' = [conn EXCEPT ![c].spc = IF conn[c].alive THEN "reg" ELSE "regDead"]
        /\ reg' = [reg EXCEPT ![h] = c]
        /\ reports' = [reports EXCEPT ![h] = @ + (IF conn[c].alive THEN 0 ELSE Reannounce(h, reg[h]))]
-    /\ UNCHANGED <<trusted, visible, cnt, running, dials, nextId, disturb>>
+    /\ UNCHANGED <<trusted, visible, cnt, running, dials, nextId, disturb, shut, intent>>
 
 SAtomic(c) ==
     /\ conn[c].spc = "accepted"
     /\ LET h == conn[c].sv IN
-       IF reg[h] # 0 /\ ~KeepDecision(h, TRUE)
+       IF (FixShut /\ shut[h]) \/ (reg[h] # 0 /\ ~KeepDecision(h, TRUE))
        THEN /\ conn' = [conn EXCEPT ![c].spc = "closed", ![c].alive = FALSE] /\ UNCHANGED <<reg, cnt, reports>>
        ELSE IF ~conn[c].alive
        THEN /\ conn' = [conn EXCEPT ![c].spc = "closed"] /\ UNCHANGED <<reg, cnt>>
@@ -167,13 +176,15 @@ SAtomic(c) ==
                 eff == IF e = 0 THEN [reg |-> 0, cnt |-> cnt[h]] ELSE ClosedEffect(h, e, conn[e].done, reg[h], cnt[h])
             IN  /\ conn' = [CloseExisting(h, conn) EXCEPT ![c].spc = "reg"]
                 /\ reg' = [reg EXCEPT ![h] = c] /\ cnt' = [cnt EXCEPT ![h] = eff.cnt] /\ UNCHANGED reports
-    /\ UNCHANGED <<trusted, visible, running, dials, nextId, disturb>>
+    /\ UNCHANGED <<trusted, visible, running, dials, nextId, disturb, shut, intent>>
 
 \* ------------------------------------------------------------------ handshake, transport loss, disturbances
-Complete(c) == /\ conn[c].alive /\ ~conn[c].done
+\* the server side needs trust (C01); the client side trusts by role - it dialled - and reaching hello-ok sets the paired flag
+Complete(c) == /\ conn[c].alive /\ ~conn[c].done /\ trusted[conn[c].sv]
                /\ conn[c].cpc \in {"kept", "reg"} /\ conn[c].spc \in {"kept", "reg"}
                /\ conn' = [conn EXCEPT ![c].done = TRUE]
-               /\ UNCHANGED <<trusted, visible, reg, cnt, running, dials, reports, nextId, disturb>>
+               /\ trusted' = [trusted EXCEPT ![conn[c].cl] = TRUE]
+               /\ UNCHANGED <<visible, reg, cnt, running, dials, reports, nextId, disturb, shut, intent>>
 
 \* a side that is past Run notices that the transport is gone: CloseConnection -> HandleConnectionClosed
 Notice(c, side) ==
@@ -186,7 +197,7 @@ Notice(c, side) ==
            /\ reg' = [reg EXCEPT ![h] = eff.reg] /\ cnt' = [cnt EXCEPT ![h] = eff.cnt]
            /\ reports' = [reports EXCEPT ![h] = @ + Reannounce(h, eff.reg)]
            /\ running' = RunAfter(h, conn[c].done)
-    /\ UNCHANGED <<trusted, visible, dials, nextId, disturb>>
+    /\ UNCHANGED <<trusted, visible, dials, nextId, disturb, shut, intent>>
 
 \* the side that lost the keep decision before Run simply closed the socket: nothing to report
 Drop(c, side) ==
@@ -194,7 +205,7 @@ Drop(c, side) ==
     /\ IF side = "c" THEN conn[c].cpc = "dialed" /\ conn' = [conn EXCEPT ![c].cpc = "closed"]
                      ELSE conn[c].spc = "accepted" /\ conn' = [conn EXCEPT ![c].spc = "closed"]
     /\ FALSE   \* disabled: an unkept side still runs keep -> Run -> register in the code (that is race a)
-    /\ UNCHANGED <<trusted, visible, reg, cnt, running, dials, reports, nextId, disturb>>
+    /\ UNCHANGED <<trusted, visible, reg, cnt, running, dials, reports, nextId, disturb, shut, intent>>
 
 Disconnect(h) == /\ disturb < MaxDisturb /\ reg[h] # 0 /\ conn[reg[h]].done /\ conn[reg[h]].alive
                  /\ LET c == reg[h]
@@ -203,25 +214,75 @@ Disconnect(h) == /\ disturb < MaxDisturb /\ reg[h] # 0 /\ conn[reg[h]].done /\ c
                         /\ reg' = [reg EXCEPT ![h] = eff.reg] /\ cnt' = [cnt EXCEPT ![h] = eff.cnt]
                         /\ reports' = [reports EXCEPT ![h] = @ + Reannounce(h, eff.reg)]
                  /\ disturb' = disturb + 1 /\ running' = RunAfter(h, TRUE)
-                 /\ UNCHANGED <<trusted, visible, dials, nextId>>
+                 /\ UNCHANGED <<trusted, visible, dials, nextId, shut, intent>>
 
 Cut(c) == /\ disturb < MaxDisturb /\ conn[c].alive /\ conn' = [conn EXCEPT ![c].alive = FALSE]
           /\ disturb' = disturb + 1
-          /\ UNCHANGED <<trusted, visible, reg, cnt, running, dials, reports, nextId>>
+          /\ UNCHANGED <<trusted, visible, reg, cnt, running, dials, reports, nextId, shut, intent>>
+
+\* ------------------------------------------------------------------ richer environment (Rich)
+\* a handshake that cannot complete (one side does not trust) may end at any time: abort, denial, timers
+Expire(c) == /\ Rich /\ conn[c].alive /\ ~conn[c].done /\ ~trusted[conn[c].sv]
+             /\ conn[c].cpc \in {"kept", "reg"} /\ conn[c].spc \in {"kept", "reg"}
+             /\ conn' = [conn EXCEPT ![c].alive = FALSE]
+             /\ UNCHANGED <<trusted, visible, reg, cnt, running, dials, reports, nextId, disturb, shut, intent>>
+\* UnregisterRemoteSKI: trust and attempt counter gone, the registered connection closed
+Unregister(h) == /\ Rich /\ disturb < MaxDisturb /\ intent[h] /\ ~shut[h]
+                 /\ trusted' = [trusted EXCEPT ![h] = FALSE] /\ intent' = [intent EXCEPT ![h] = FALSE]
+                 /\ LET c == reg[h] IN
+                    IF c = 0 THEN cnt' = [cnt EXCEPT ![h] = 3] /\ UNCHANGED <<conn, reg>>
+                    ELSE /\ conn' = [CloseExisting(h, conn) EXCEPT ![c].alive = FALSE]
+                         /\ reg' = [reg EXCEPT ![h] = 0] /\ cnt' = [cnt EXCEPT ![h] = 3]
+                 /\ disturb' = disturb + 1
+                 /\ UNCHANGED <<visible, running, dials, reports, nextId, shut>>
+\* h loses sight of its peer on mDNS (no report leads to a dial any more)
+Disappear(h) == /\ Rich /\ disturb < MaxDisturb /\ visible[h] /\ visible' = [visible EXCEPT ![h] = FALSE]
+                /\ disturb' = disturb + 1
+                /\ UNCHANGED <<trusted, reg, cnt, running, dials, reports, conn, nextId, shut, intent>>
+\* everything hub h holds is gone and its connections die
+Down(h, cs) == [c \in Conns |-> IF cs[c].cl = h \/ cs[c].sv = h
+                                 THEN [cs[c] EXCEPT !.alive = FALSE,
+                                                    !.cpc = IF cs[c].cl = h /\ @ # "none" THEN "closed" ELSE @,
+                                                    !.spc = IF cs[c].sv = h /\ @ # "none" THEN "closed" ELSE @]
+                                 ELSE cs[c]]
+\* Restart: h comes back at once with the same identity, re-registers what the user had registered and hears the peer's
+\* announcement again; the peer sees h's service removed and added
+Restart(h) == /\ Rich /\ disturb < MaxDisturb /\ ~shut[h]
+              /\ conn' = Down(h, conn)
+              /\ reg' = [reg EXCEPT ![h] = 0] /\ cnt' = [cnt EXCEPT ![h] = 3] /\ running' = [running EXCEPT ![h] = FALSE]
+              /\ dials' = [dials EXCEPT ![h] = {}]
+              /\ reports' = [reports EXCEPT ![h] = IF visible[h] THEN 1 ELSE 0,
+                                            ![Other(h)] = IF visible[Other(h)] THEN @ + 2 ELSE @]
+              /\ disturb' = disturb + 1
+              /\ trusted' = [trusted EXCEPT ![h] = intent[h]]
+              /\ UNCHANGED <<visible, nextId, shut, intent>>
+\* Shutdown: h stays down.  As is, Shutdown closes what is registered: a connection h is just setting up goes on
+ShutDownConns(h, cs) == [c \in Conns |-> IF ~FixShut /\ ((cs[c].cl = h /\ cs[c].cpc = "dialed") \/ (cs[c].sv = h /\ cs[c].spc = "accepted"))
+                                          THEN cs[c] ELSE Down(h, cs)[c]]
+Shutdown(h) == /\ Rich /\ disturb < MaxDisturb /\ ~shut[h]
+               /\ shut' = [shut EXCEPT ![h] = TRUE]
+               /\ conn' = ShutDownConns(h, conn)
+               /\ reg' = [reg EXCEPT ![h] = 0] /\ running' = [running EXCEPT ![h] = FALSE] /\ dials' = [dials EXCEPT ![h] = {}]
+               /\ reports' = [reports EXCEPT ![h] = 0, ![Other(h)] = IF visible[Other(h)] THEN @ + 1 ELSE @]
+               /\ visible' = [visible EXCEPT ![Other(h)] = FALSE]
+               /\ disturb' = disturb + 1
+               /\ UNCHANGED <<trusted, cnt, nextId, intent>>
 
 Lib == \/ \E h \in Hubs : Report(h) \/ \E k \in 0..2 : Prepare(h, k)
        \/ \E c \in Conns : \/ (IF AtomicReg THEN OAtomic(c) \/ SAtomic(c) ELSE OKeep(c) \/ ORunReg(c) \/ SKeep(c) \/ SRunReg(c))
-                           \/ Complete(c) \/ Notice(c, "c") \/ Notice(c, "s")
+                           \/ Complete(c) \/ Notice(c, "c") \/ Notice(c, "s") \/ Expire(c)
 \* an environment step is logged together with whether the library had come to rest before it
 LibIdle == ~ENABLED Lib
 Log(op, h) == script' = IF EmitMode = "none" THEN script ELSE Append(script, [op |-> op, h |-> h, quiet |-> LibIdle])
 Env == \/ \E h \in Hubs : (Register(h) /\ Log("Register", h)) \/ (Appear(h) /\ Log("Appear", h)) \/ (Disconnect(h) /\ Log("Disconnect", h))
+                          \/ (Unregister(h) /\ Log("Unregister", h)) \/ (Disappear(h) /\ Log("Disappear", h))
+                          \/ (Restart(h) /\ Log("Restart", h)) \/ (Shutdown(h) /\ Log("Shutdown", h))
        \/ \E c \in Conns : (Cut(c) /\ Log("Cut", ""))
 Next == (Lib /\ UNCHANGED script) \/ Env
 Spec == Init /\ [][Next]_vars /\ WF_vars(Lib)
 
 \* ------------------------------------------------------------------ properties
-Stable == \A h \in Hubs : trusted[h] /\ visible[h]
+Stable == \A h \in Hubs : intent[h] /\ visible[h] /\ ~shut[h]
 Quiet  == /\ \A h \in Hubs : reports[h] = 0 /\ dials[h] = {}
           /\ ~ENABLED Lib
 Emit == EmitMode = "none" \/ script' = script \/ PrintT(<<"TEST", ToJson(script')>>)
@@ -233,6 +294,10 @@ P_C05 == (Stable /\ Quiet /\ nextId <= MaxC) => OneGood
 \* no live connection that neither registry knows
 NoOrphan == \A c \in Conns : (Quiet /\ conn[c].alive /\ conn[c].cpc = "reg" /\ conn[c].spc = "reg")
                                => (reg[conn[c].cl] = c /\ reg[conn[c].sv] = c)
+\* C10 on two hubs: no completed connection while either side does not trust; nothing alive at a hub that was shut down
+P_C10_trust == /\ \A h \in Hubs : trusted[h] => intent[h]
+               /\ \A c \in Conns : (Quiet /\ Good(c)) => (intent[conn[c].cl] /\ intent[conn[c].sv])
+P_C10_shut  == \A c \in Conns : conn[c].alive => (~shut[conn[c].cl] /\ ~shut[conn[c].sv])
 KF_a == \E c \in Conns : conn[c].cpc = "regDead" \/ conn[c].spc = "regDead"
 P_C05_modA == ~KF_a => P_C05
 NoOrphan_modA == ~KF_a => NoOrphan
